@@ -35,6 +35,41 @@ def _patch_numba():
 
     cgutils.pointer_add = pointer_add
 
+    # llvmlite removed its llvmpy compatibility layer; the 1.4.0 builder connector (globalstring) still spells the
+    # i8* type as llvmlite.llvmpy.core.Type.pointer(Type.int(8)).  Restore exactly those two constructors.
+    import llvmlite
+    if not hasattr(llvmlite, "llvmpy"):
+        import types as _types
+
+        class Type(object):
+            int = staticmethod(lambda bits=32: ir.IntType(bits))
+            pointer = staticmethod(lambda pointee, addrspace=0: ir.PointerType(pointee, addrspace))
+
+        llvmpy = _types.ModuleType("llvmlite.llvmpy")
+        core = _types.ModuleType("llvmlite.llvmpy.core")
+        core.Type = Type
+        llvmpy.core = core
+        llvmlite.llvmpy = llvmpy
+        sys.modules["llvmlite.llvmpy"] = llvmpy
+        sys.modules["llvmlite.llvmpy.core"] = core
+
+
+def _prefer_literal(awkward):
+    """numba >= 0.52 resolves a typing template with de-literalised argument types first unless the template sets
+    prefer_literal; the 1.4.0 connector's getitem templates raise TypeError (instead of declining) for a non-literal
+    field name, which ends the resolution before the literal form (x["field"]) is tried.  The numba of its time tried
+    the literal types first; restore that order for the connector's own templates (harness side)."""
+    try:
+        import numba
+        awkward._connect._numba.register_and_check()
+        from numba.core.typing.templates import AbstractTemplate
+        for mod in (awkward._connect._numba.arrayview, awkward._connect._numba.builder):
+            for obj in vars(mod).values():
+                if isinstance(obj, type) and issubclass(obj, AbstractTemplate) and obj is not AbstractTemplate:
+                    obj.prefer_literal = True
+    except ImportError:
+        pass
+
 
 def install(flavour=None):
     if _installed[0] is not None:
@@ -100,5 +135,6 @@ def install(flavour=None):
     if not awkward.__file__.startswith(src):
         raise RuntimeError("imported the wrong awkward: " + awkward.__file__)
     L.HIGHLEVEL = awkward
+    _prefer_literal(awkward)
     _installed[0] = awkward
     return awkward
